@@ -12,6 +12,11 @@ mod huffman;
 pub mod io;
 pub mod record;
 
+#[cfg(noodles_verif)]
+#[doc(hidden)]
+#[allow(missing_docs)]
+pub mod verif;
+
 use md5::{Digest, Md5};
 
 pub use self::{file_definition::FileDefinition, record::Record};
